@@ -257,7 +257,7 @@ func pickOpts(r *rand.Rand, prop string, k int) [][4]int {
 	return out
 }
 
-var encPool = []string{"i32", "i32", "i64", "i16", "i8", "s16", "s16", "b4", "te", "none", "none", "int", "b1"}
+var encPool = []string{"i32", "i32", "i64", "i16", "i8", "s16", "s16", "b4", "te", "none", "none", "int", "b1", "opt4"}
 
 func pickEnc(r *rand.Rand, prop string) string {
 	switch prop {
@@ -298,6 +298,9 @@ func mkVals(r *rand.Rand, prop, enc string, n int) [][]byte {
 	}
 	if prop == "C14" && r.Intn(2) == 0 {
 		return valsFullRange(r, enc, n)
+	}
+	if enc == "s16" && n <= 400 && r.Intn(4) == 0 {
+		return valsLongStrings(r, n)
 	}
 	if enc == "s16" && r.Intn(2) == 0 {
 		return valsSmallStrings(r, n)
